@@ -33,7 +33,7 @@ ASSUMPTIONS = simlib.SIM_ASSUMPTIONS + [
     "round-robin reference: constraint limits within 1e-9 (relative) of the boundary of a trial schedule are excluded (IEEE rounding of concrete level arithmetic decides there)",
     "round-robin reference model: allowable levels of a continuous EVSE are 0, inc, 2 inc, ... up to min(max pilot, remaining amp-periods) (what np.arange(min, max + inc/2, inc) filtered by <= bound denotes)",
 ]
-EXPECT_GLOBAL_TAGS = ("greedy:uninterrupted", "greedy:bisected", "greedy:at_upper_bound", "greedy:level_below_bound", "rr:dropped_while_blocked", "rr:reached_bound", "uncontrolled", "order:symbolic_keys")
+EXPECT_GLOBAL_TAGS = ("second_call_on_the_same_algorithm_object", "greedy:uninterrupted", "greedy:bisected", "greedy:at_upper_bound", "greedy:level_below_bound", "rr:dropped_while_blocked", "rr:reached_bound", "uncontrolled", "order:symbolic_keys")
 EPS = 0.01
 BAND = 1e-9
 
@@ -98,8 +98,10 @@ def min_rate_reference(cx, sc, maxpil, minpil):
     return lb, ub
 
 
-def _setup(cx, stations, rows, sessions, sort, factory, limit_hi):
-    sc = alglib.build(cx, stations, rows, sessions, factory, limit_hi=limit_hi, sym_battery=False, finite_prev=(8,))
+def _setup(cx, stations, rows, sessions, sort, factory, limit_hi, warmup=False):
+    sc = alglib.build(cx, stations, rows, sessions, factory, limit_hi=limit_hi, sym_battery=False, finite_prev=(8,), warmup=warmup)
+    if warmup:
+        cx.tag("second_call_on_the_same_algorithm_object")
     for k, ev in enumerate(sc.evs):
         j = sessions[k][0]
         minp = float(sc.net.min_pilot_signals[j])
@@ -113,11 +115,11 @@ def _setup(cx, stations, rows, sessions, sort, factory, limit_hi):
     return sc, ks
 
 
-def h_greedy(cx, stations, rows, sessions, sort, limit_hi, uninterrupted=False):
+def h_greedy(cx, stations, rows, sessions, sort, limit_hi, uninterrupted=False, warmup=False):
     env.install(cx)
     import acnportal.algorithms as ALG
 
-    sc, ks = _setup(cx, stations, rows, sessions, sort, lambda: ALG.SortedSchedulingAlgo(alglib.sort_fn(sort), uninterrupted_charging=uninterrupted), limit_hi)
+    sc, ks = _setup(cx, stations, rows, sessions, sort, lambda: ALG.SortedSchedulingAlgo(alglib.sort_fn(sort), uninterrupted_charging=uninterrupted), limit_hi, warmup)
     n = len(stations)
     maxpil = [float(v) for v in sc.net.max_pilot_signals]
     minpil = [float(v) for v in sc.net.min_pilot_signals]
@@ -177,11 +179,11 @@ def _possible(cx, prop):
     return cx._check(prop.z3()) == z3.sat
 
 
-def h_rr(cx, stations, rows, sessions, sort, inc, limit_hi):
+def h_rr(cx, stations, rows, sessions, sort, inc, limit_hi, warmup=False):
     env.install(cx)
     import acnportal.algorithms as ALG
 
-    sc, ks = _setup(cx, stations, rows, sessions, sort, lambda: ALG.RoundRobin(alglib.sort_fn(sort), continuous_inc=inc), limit_hi)
+    sc, ks = _setup(cx, stations, rows, sessions, sort, lambda: ALG.RoundRobin(alglib.sort_fn(sort), continuous_inc=inc), limit_hi, warmup)
     n = len(stations)
     maxpil = [float(v) for v in sc.net.max_pilot_signals]
     out = sc.algo.run()
@@ -303,6 +305,13 @@ def jobs(tier):
                 continue
             js.append(Job("rr[%s,%s,inc=%s]" % (name, sort, inc), h_rr, dict(stations=st, rows=rows, sessions=sess, sort=sort, inc=inc, limit_hi=lh), functions=FUNCS, max_paths=200000, timeout=6000,
                           bounds=dict(stations=[s[0] + "@%dV/%d" % (s[1], s[2]) for s in st], constraints=rows, sessions=len(sess), sort=sort, continuous_inc=inc), cost=100 if len(st) == 3 else 20))
+    # a second call on the same algorithm object after other sessions used the same stations
+    st, rows, lh = nets["av5+cc(mixed sign)"]
+    for sort in (("fcfs",) if q else ("fcfs", "lrpt")):
+        js.append(Job("rr_second_call[av5+cc,%s]" % sort, h_rr, dict(stations=st, rows=[(1, 1)], sessions=SESS2, sort=sort, inc=0.05, limit_hi=lh, warmup=True), functions=FUNCS, max_paths=200000, timeout=6000,
+                      bounds=dict(stations=[s_[0] for s_ in st], sessions=2, sort=sort, calls="warm-up call for two other sessions (0.2-0.7 kWh), then the judged call"), cost=60))
+        js.append(Job("greedy_second_call[av5+cc,%s]" % sort, h_greedy, dict(stations=st, rows=[(1, 1)], sessions=SESS2, sort=sort, limit_hi=lh, warmup=True), functions=FUNCS, max_paths=200000, timeout=6000,
+                      bounds=dict(stations=[s_[0] for s_ in st], sessions=2, sort=sort, calls="warm-up call for two other sessions (0.2-0.7 kWh), then the judged call"), cost=60))
     for fin, vac in (((), ()), ((1,), ()), ((), (0,))) if q else [((), ()), ((1,), ()), ((), (0,)), ((0, 2), ()), ((2,), (1,))]:
         js.append(Job("uncontrolled[finished=%s,vacated=%s]" % (fin, vac), h_uncontrolled, dict(stations=[("C32", 208, 0), ("CC", 240, 0), ("AV5", 120, 0)], sessions=SESS3, finished=fin, vacate=vac),
                       functions=FUNCS, bounds=dict(stations=3, sessions=3, finished=fin, vacated=vac)))
